@@ -53,8 +53,9 @@ def scalar(i, variant):
     return n / d
 
 
-def junk(i):
-    return {"str": "a", "none": None, "list": [1], "cplx": 1j}[JUNK[i - 1]]
+def junk(i, variant=0):
+    # a string is a string: the float scalars replay uses one that LOOKS like a number
+    return {"str": "a" if variant == 0 else "3", "none": None, "list": [1], "cplx": 1j}[JUNK[i - 1]]
 
 
 VARIANT = 0
@@ -136,7 +137,7 @@ def operand(x, objs, variant):
     if x["t"] == "sc":
         return scalar(x["i"], variant)
     if x["t"] == "junk":
-        return junk(x["i"])
+        return junk(x["i"], variant)
     return None
 
 
